@@ -165,6 +165,9 @@ func NewWorld(c *Case, o WorldOpts) *World {
 		nowFn = time.Now
 	}
 	w.IdP = NewIdP(o.ClientID, o.ClientSecret, nowFn)
+	if !o.ViaServer {
+		w.IdP.Sleep = func(d time.Duration) { w.Clock.Advance(d) } // a slow provider: virtual time passes inside the check
+	}
 	if o.Binary {
 		w.stopIdP = w.IdP.ServeOnLoopback()
 	}
